@@ -571,6 +571,12 @@ func (p *PsUnpacker) onAvPacketWrap(packet *base.AvPacket) {
 	p.onAvPacketWrapCount++
 	//nazalog.Debugf("PsUnpacker > onAvPacketWrap. packet=%s", packet.DebugString())
 	if packet.IsVideo() {
+		// a nal unit is delivered behind its start code; a start code with nothing behind it (or a unit cut
+		// below the type byte read here) is not a nal unit
+		if len(packet.Payload) < 5 {
+			nazalog.Warnf("video nal unit too short, skip. len=%d", len(packet.Payload))
+			return
+		}
 		typ := h2645.ParseNaluType(packet.PayloadType == base.AvPacketPtAvc, packet.Payload[4])
 		//nazalog.Debugf("PsUnpacker onAvPacketWrap. type=%d", typ)
 		// TODO(chef): [opt] 等待sps等信息再开始回调，这个逻辑不完整简化了 202209
